@@ -13,7 +13,7 @@ func init() {
 	register(&Prop{
 		ID:    "C03",
 		Level: "exploration",
-		Rule:  "case = (statement from the typed generator over the full language — scalar functions, aggregates, aliases, list/JSON indexing, IN, BETWEEN, ORDER BY, GROUP BY, LIMIT, PUT/REMOVE/DELETE; feature families switched per run — , generated store of 0..4 batches, batch size, cache switch). Each case is executed twice on equal simulated stores, once drained with Next and once with Batch; rows are compared by content in order (multiset inside ORDER BY tie runs), write statements by final store. Row error with batch success, a panic or non-termination in one mode only, and any content difference are violations; batch-only error values are tolerated and counted. distinct_nontrivial counts distinct (plan-node chain, batch size, number of row polls, number of batch polls) among cases accepted by the planner that completed in at least one mode.",
+		Rule:  "case = (statement from the typed generator over the full language — scalar functions, aggregates, aliases, list/JSON indexing, IN, BETWEEN, ORDER BY, GROUP BY, LIMIT, PUT/REMOVE/DELETE; feature families switched per run — , generated store of 0..4 batches, batch size, cache switch). Each case is executed twice on equal simulated stores, once drained with Next and once with Batch; rows are compared by content in order (multiset inside ORDER BY tie runs), write statements by final store. Row error with batch success, a panic or non-termination in one mode only, and any content difference are violations; batch-only error values are tolerated and counted. distinct_nontrivial counts distinct (plan-node chain, batch size, number of row polls, number of batch polls) among cases accepted by the planner that completed in at least one mode. Rare families stretch the envelope: scale (stores of 255..1500 pairs, batch 64..1000), big (3000..140000 pairs, batch sizes to 70000, offsets beyond 65536, as many groups as rows), longlist (IN lists of 300..4200 literals), pin and pred-bytes (key-pinning clauses and predicate trees over byte-level alphabets: keys and literals that are not UTF-8, prefixes ending in 0xFF).",
 		Assumptions: []string{
 			"a batch-mode error where row mode completes is tolerated (vectorised evaluation cannot short-circuit & and |): the property allows this direction",
 			"quantile() is compared exactly: the sketch is a deterministic function of the values in scan order, which both modes share",
